@@ -1018,7 +1018,7 @@ class PandasModelBase(
         jointype = jointype.lower()
         mp = {
             "full": "outer",
-            "cross": "outer",  # cross new to Pandas 1.2.0 December 2020
+            "cross": "inner",  # on a constant key: all pairs, and none when a side is empty
         }
         try:
             return mp[jointype]
